@@ -34,7 +34,9 @@ def gen_hist(rng, length: int) -> str:
         #  must come out of every decoration unchanged)
         steps.append(f"A|T{i}|FloatTensor,{1 if rng.random() < 0.3 else 0},{sh}")
     provs = {}
-    for pid, kind in (("p1", "fresh"), ("p2", "long"), ("p3", "bad")):
+    # (p1 / p3 may be two objects of ONE type, only one of which carries the method: `inst` / `instbad`; a class object with a classmethod;
+    #  a provider that hands out one long-lived mapping object that is no dict)
+    for pid, kind in (("p1", rng.choice(["fresh", "fresh", "inst", "cls"])), ("p2", rng.choice(["long", "long", "mapobj"])), ("p3", rng.choice(["bad", "instbad", "instbad"]))):
         if rng.random() < 0.8:
             sc = rng.choice(["", "k:3", "a:2", "k:3;a:2", "n:4"])
             steps.append(f"V|{pid}|{kind}|{sc}")
@@ -44,7 +46,7 @@ def gen_hist(rng, length: int) -> str:
     setters = set()
 
     def define(fid):
-        pid = rng.choice(["-", "-", *provs.keys(), *[f"self:{p}" for p in provs if provs[p] != "bad"]])
+        pid = rng.choice(["-", "-", *provs.keys(), *[f"self:{p}" for p in provs if provs[p] not in ("bad", "instbad")]])
         ps = []
         # (a function that another body calls keeps its parameter names when it is defined again: the nested call
         #  passes exactly those)
@@ -65,11 +67,11 @@ def gen_hist(rng, length: int) -> str:
         nested = rng.choice(same + [fid]) if (rng.random() < 0.2) else "-"
         if nested != "-":
             nested_targets.add(nested)
-        elif ret != "-" and rng.random() < 0.2 and fid not in nested_targets and any(k != "bad" for k in provs.values()):
+        elif ret != "-" and rng.random() < 0.2 and fid not in nested_targets and any(k not in ("bad", "instbad") for k in provs.values()):
             setters.add(fid)
             # the body updates a provider while the call is running (in place for the long-lived dict): the return value is judged under
             # the mapping the call started with
-            nested = f"set:{rng.choice([p for p, k in provs.items() if k != 'bad'])}={rng.choice(['k:3', 'k:5', 'a:2', 'a:3,k:3', 'n:4,k:3'])}"
+            nested = f"set:{rng.choice([p for p, k in provs.items() if k not in ('bad', 'instbad')])}={rng.choice(['k:3', 'k:5', 'a:2', 'a:3,k:3', 'n:4,k:3'])}"
         funcs[fid] = {"ps": ps, "ret": ret, "pid": pid}
         return f"D|{fid}|{pid}|{';'.join(f'{n}={h}' for n, h in ps)}|{ret}|{nested}"
 
